@@ -80,6 +80,7 @@ func createMulticastDNS(
 		return nil, mDNSMode, mdnsErr
 	}
 
+	var sockV4, sockV6 transport.UDPConn
 	var pktConnV4 *ipv4.PacketConn
 	var mdns4Err error
 	if useV4 {
@@ -91,6 +92,7 @@ func createMulticastDNS(
 
 			return nil, MulticastDNSModeDisabled, nil
 		}
+		sockV4 = l
 		pktConnV4 = ipv4.NewPacketConn(l)
 	}
 
@@ -101,9 +103,14 @@ func createMulticastDNS(
 		l, mdns6Err = netTransport.ListenUDP("udp6", addr6)
 		if mdns6Err != nil {
 			log.Errorf("Failed to enable mDNS over IPv6: (%s)", mdns6Err)
+			// mDNS is given up: do not leave the IPv4 socket behind.
+			if sockV4 != nil {
+				_ = sockV4.Close()
+			}
 
 			return nil, MulticastDNSModeDisabled, nil
 		}
+		sockV6 = l
 		pktConnV6 = ipv6.NewPacketConn(l)
 	}
 
@@ -121,6 +128,16 @@ func createMulticastDNS(
 		}
 	}
 
+	// The server owns the sockets once it runs; if it cannot be started nobody does.
+	closeSockets := func() {
+		if sockV4 != nil {
+			_ = sockV4.Close()
+		}
+		if sockV6 != nil {
+			_ = sockV6.Close()
+		}
+	}
+
 	switch mDNSMode {
 	case MulticastDNSModeQueryOnly:
 		conn, err := mdns.Server(pktConnV4, pktConnV6, &mdns.Config{
@@ -129,6 +146,9 @@ func createMulticastDNS(
 			LocalAddress:    localAddress,
 			LoggerFactory:   loggerFactory,
 		})
+		if err != nil {
+			closeSockets()
+		}
 
 		return conn, mDNSMode, err
 	case MulticastDNSModeQueryAndGather:
@@ -139,9 +159,14 @@ func createMulticastDNS(
 			LocalNames:      []string{mDNSName},
 			LoggerFactory:   loggerFactory,
 		})
+		if err != nil {
+			closeSockets()
+		}
 
 		return conn, mDNSMode, err
 	default:
+		closeSockets()
+
 		return nil, mDNSMode, nil
 	}
 }
